@@ -280,6 +280,10 @@ void run_and_check(Case &c, Built &b, bool do_sprintf)
         VP_CHECK(r.sp_ret == r.host_ret, "sprintf_return", "vsprintf returned %d, ISO %d", r.sp_ret, r.host_ret);
         VP_CHECK(memcmp(r.sp_out.data(), r.host.data(), r.host.size()) == 0 && r.sp_out[r.host.size()] == 0, "sprintf_output",
                  "vsprintf wrote '%s', ISO '%s'", hexdump(r.sp_out.data(), r.sp_out.size(), 40).c_str(), r.host.c_str());
+        VP_CHECK(r.sn_ret == r.host_ret, "snprintf_return", "snprintf(buf, %d, ...) returned %d, ISO %d", r.host_ret + 1, r.sn_ret, r.host_ret);
+        VP_CHECK(memcmp(r.sn_out.data(), r.host.data(), r.host.size()) == 0 && r.sn_out[r.host.size()] == 0, "snprintf_output",
+                 "snprintf into a buffer of exactly %d bytes wrote '%s', ISO '%s'", r.host_ret + 1, hexdump(r.sn_out.data(), r.sn_out.size(), 40).c_str(),
+                 r.host.c_str());
     }
 }
 
